@@ -100,12 +100,54 @@ func TestC20_Equality(t *testing.T) {
 		}
 		// operands are supplied through the document or as literals
 		var ms []jv.Member
-		operand := func(name string, v jv.Val) ast.Expr {
+		plain := func(name string, v jv.Val) ast.Expr {
 			if rapid.IntRange(0, 2).Draw(t, "aslit-"+name) == 0 {
 				return ast.Lit(v)
 			}
 			ms = append(ms, jv.Member{K: name, V: v})
 			return ast.F(name)
+		}
+		zero, one := ast.Lit(jv.VInt(0)), ast.Lit(jv.VInt(1))
+		xComputed := false
+		operand := func(name string, v jv.Val) (out ast.Expr) {
+			e := plain(name, v)
+			defer func() {
+				if name == "x" && out != e {
+					xComputed = true
+				}
+			}()
+			// the same value, but computed: the library then holds it in its
+			// internal number type, with whatever scale the operands had
+			if v.K == jv.Num && model.NumOK(v.R) && rapid.IntRange(0, 3).Draw(t, "computed-"+name) == 0 {
+				switch rapid.IntRange(0, 6).Draw(t, "how-"+name) {
+				case 0:
+					return ast.Paren(ast.Bin("+", e, zero))
+				case 1:
+					return ast.Paren(ast.Bin("*", e, one))
+				case 2:
+					return ast.Paren(&ast.Unary{Op: "-", X: ast.Paren(&ast.Unary{Op: "-", X: e})})
+				case 3:
+					return ast.Call("sum", ast.A(&ast.Chain{Head: ast.Head{Kind: ast.HMultiList, Items: []ast.Expr{e}}}))
+				case 4:
+					return ast.Call(gen.Pick(t, "ext-"+name, []string{"max", "min", "avg"}), ast.A(&ast.Chain{Head: ast.Head{Kind: ast.HMultiList, Items: []ast.Expr{e}}}))
+				case 5:
+					return ast.Paren(ast.Bin("-", e, ast.Lit(jv.VNumText("0.0"))))
+				default:
+					return ast.Paren(ast.Bin("/", e, ast.Lit(jv.VNumText("1.00"))))
+				}
+			}
+			if v.K == jv.Arr && len(v.A) > 0 && rapid.IntRange(0, 7).Draw(t, "computedarr-"+name) == 0 {
+				all := true
+				for _, x := range v.A {
+					if x.K != jv.Num || !model.NumOK(x.R) {
+						all = false
+					}
+				}
+				if all {
+					return ast.Call("map", ast.Ref(ast.Bin("+", ast.Cur(), zero)), ast.A(e))
+				}
+			}
+			return e
 		}
 		X, Y, Z := operand("x", x), operand("y", y), operand("z", z)
 		if x.K == jv.Arr && rapid.IntRange(0, 5).Draw(t, "window") == 0 {
@@ -147,10 +189,10 @@ func TestC20_Equality(t *testing.T) {
 		call := run.Call{API: "search", Expr: text, Doc: &node}
 		run.Watch(c, "equality", call)
 		out := run.Search(text, node.Build())
-		msg := c20Verdict(x, y, z, out)
+		msg := c20Verdict(x, y, z, out, xComputed)
 		if msg != "" {
 			c.Fail(t, run.Replay{Check: "equality", Kind: "custom:c20", Calls: []run.Call{call}, Message: msg,
-				Extra: mustJSON(map[string]any{"x": run.EncVal{V: x}, "y": run.EncVal{V: y}, "z": run.EncVal{V: z}})}, msg[:minInt(len(msg), 25)])
+				Extra: mustJSON(map[string]any{"x": run.EncVal{V: x}, "y": run.EncVal{V: y}, "z": run.EncVal{V: z}, "x_computed": xComputed})}, msg[:minInt(len(msg), 25)])
 			return
 		}
 		if jv.Equal(x, y) {
@@ -199,7 +241,7 @@ func numsAllOK(v jv.Val) bool {
 	return true
 }
 
-func c20Verdict(x, y, z jv.Val, out run.Outcome) string {
+func c20Verdict(x, y, z jv.Val, out run.Outcome, xComputed bool) string {
 	if out.Panic != "" {
 		return "library panicked: " + out.Panic
 	}
@@ -226,7 +268,8 @@ func c20Verdict(x, y, z jv.Val, out run.Outcome) string {
 		}
 	}
 	// && and || return one of their operands unchanged (incl. spelling)
-	same := func(a, b jv.Val) bool { return jv.StrictEqual(a, b) && a.JSON() == b.JSON() }
+	// (a computed operand is a new number; only its value is pinned)
+	same := func(a, b jv.Val) bool { return jv.StrictEqual(a, b) && (xComputed || a.JSON() == b.JSON()) }
 	if x.Truthy() {
 		if !same(get("and"), jv.VStr("T")) || !same(get("or"), x) || !same(get("cond"), jv.VStr("T")) {
 			return fmt.Sprintf("x is true-like (%s) but x&&'T' = %s, x||'F' = %s, x&&'T'||'F' = %s", x.JSON(), get("and").JSON(), get("or").JSON(), get("cond").JSON())
@@ -251,10 +294,13 @@ func describeKey(k string) string {
 
 func init() {
 	customReplays["custom:c20"] = func(r run.Replay) string {
-		var ex struct{ X, Y, Z run.EncVal }
+		var ex struct {
+			X, Y, Z   run.EncVal
+			XComputed bool `json:"x_computed"`
+		}
 		if err := jsonUnmarshal(r.Extra, &ex); err != nil || len(r.Calls) == 0 {
 			return "malformed replay"
 		}
-		return c20Verdict(ex.X.V, ex.Y.V, ex.Z.V, doCall(r.Calls[0]))
+		return c20Verdict(ex.X.V, ex.Y.V, ex.Z.V, doCall(r.Calls[0]), ex.XComputed)
 	}
 }
